@@ -4,20 +4,61 @@ PROP = {
     "pkg": "internal/querylog",
     "files": ["querylog/c20_gen_test.go", "querylog/c20_file_test.go", "querylog/c20_reader_test.go"],
     "level": "exploration",
-    "technique": "property-based testing (rapid) against a reference model (lines of the file, reversed; cursor "
-                 "model for seek/read histories); files built so that read windows split lines at chosen offsets",
-    "level_text": "TODO",
-    "level_note": "TODO",
+    "technique": "property-based testing (rapid) against a reference model (the file's lines, reversed; a cursor "
+                 "model for histories of seeks and reads over one or two files); files are built, not filtered, so "
+                 "that the 1.6 MB reverse-reading window and the 32 KiB probe window cut lines at chosen offsets",
+    "level_text": "Generated log files of 0..~450 lines (28 B .. 16383 B, strictly increasing timestamps with gaps "
+                  "from 1 ns to days, three line flavours incl. the legacy \"Time\" key, several UTC offsets), from "
+                  "empty up to 3.5 reading windows (5.7 MB), including files of exactly k*1638400+{-2..3} bytes, "
+                  "files in which a longest-permitted line ends at entry-limit+{-4..4} bytes of a (first or moved) "
+                  "reading window, and files whose first binary-search probe hits a chosen byte (first, last, line "
+                  "break, inside) of a chosen long line. Complete reverse passes (also restarted mid-way) are compared "
+                  "line by line with the reversed line list; every stored timestamp (all of them for files up to 24-60 "
+                  "lines, a drawn subset biased to ends and aligned lines otherwise), a value in every gap, values "
+                  "before the first and after the last are sought and the error class and the following reads are "
+                  "compared with the model; a two-file reader (rotated + current; either may be missing or empty) "
+                  "runs drawn histories of SeekStart / seek / read / read-to-end. Every operation runs under a 10 s "
+                  "watchdog and the probe count is bounded by 100. Exploration: no absence claim; the window-edge "
+                  "arithmetic is covered by construction and the reached offsets are measured on the reader.",
+    "level_note": "White-box: drives the unexported qLogFile/qLogReader and reads qLogFile.position/bufferStart for "
+                  "coverage accounting only (never for the verdict). After a FAILED seek the statement leaves the "
+                  "position open: the check demands only that reads then return whole stored lines in order down to "
+                  "the oldest one. For a reader-level seek of a value later than a file's last entry the documented "
+                  "'position at the start' and 'position on the newest older entry' are both accepted, as is one of "
+                  "the three error classes. Lines of 16384 bytes and more, files without a final line break, and "
+                  "unparsable timestamps are outside the property's domain and not generated. Trusts the time "
+                  "package for formatting/parsing RFC 3339 timestamps and the OS for regular-file reads.",
     "tests": [
-        ("TestVFC20FileReverse", (300, 1500)),
-        ("TestVFC20FileSeek", (400, 2500)),
-        ("TestVFC20Reader", (400, 2500)),
+        ("TestVFC20FileReverse", (1000, 8000)),
+        ("TestVFC20FileSeek", (1000, 5000)),
+        ("TestVFC20Reader", (1500, 10000)),
     ],
     "plain": ["TestVFC20Regress"],
     "shards": (4, 16),
     "workers": (4, 16),
-    "rule": "TODO",
-    "assumptions": [],
-    "require_classes": {},
+    "rule": "One evaluation = one generated case: a file (or a rotated+current pair) plus the whole set/history of "
+            "operations run on it (a complete reverse pass; 8-130 seeks each followed by reads; 2-24 reader "
+            "operations). Files come from five builders: small (0-40 lines of every length class), medium (1-40 "
+            "mostly 4-16 KiB lines), big (total beyond the 1.6 MB window, one third of them exactly k*window-2..+3 "
+            "bytes), aligned_reverse (a long line placed entry-limit-4..+4 bytes into the first and the moved "
+            "window), aligned_probe (file middle = chosen byte of a chosen long line). Non-trivial = the file is "
+            "larger than the 1.6 MB window, or a line longer than 8 KiB starts/ends within 64 bytes of a window "
+            "edge (measured on the reader for reverse passes, by construction for the first probe), or a two-file "
+            "reader history contains a seek that must fall through to the rotated file or lands between the files. "
+            "Distinct = FNV-64 of (base timestamp, list of line lengths, targets/history).",
+    "assumptions": [
+        "Go's time package formats and parses RFC 3339 timestamps consistently (reference timestamps are UnixNano values)",
+        "reads of regular files return the requested bytes except at end of file",
+        "the 10 s per-operation watchdog separates termination from looping (operations take micro- to milliseconds)",
+    ],
+    "require_classes": {"thorough": [
+        "file:>window", "file:>2_windows", "file:window_exact", "file:empty", "file:one_line",
+        "reverse:window_moved", "reverse:long_line_at_window_edge", "reverse:line_starts_at_window_byte_1",
+        "reverse:long_line_ends_at_limit+0", "reverse:long_line_ends_at_limit-1", "reverse:long_line_ends_at_limit-2",
+        "probe_aligned:first_byte", "probe_aligned:line_break", "probe_aligned:max_line_end",
+        "seek:present", "seek:absent_not_found", "seek:absent_too_early", "seek:absent_too_late",
+        "reader_seek:present_in_rotated->found", "reader_seek:absent_gap->error", "reader_seek:absent_before_all->error",
+        "reader_files:lines+lines", "reader_files:missing+lines",
+    ]},
     "claimed": False,
 }
